@@ -289,7 +289,7 @@ def assignments(symbols, consts=(), bools=(), constraint=None):
                 yield env2
 
 
-def check_pred(e, spec, symbols=None, constraint=None, atom_name=None, extra_consts=()):
+def check_pred(e, spec, symbols=None, constraint=None, atom_name=None, extra_consts=(), extra_bools=()):
     """Compare predicate expression `e` with python function spec(env) on every assignment.
     Returns (n_cases, counterexamples[:5])."""
     nums, bools = cmp_atoms(e, atom_name)
@@ -300,7 +300,7 @@ def check_pred(e, spec, symbols=None, constraint=None, atom_name=None, extra_con
     consts = consts_in(e) | set(extra_consts)
     n = 0
     bad = []
-    for env in assignments(syms, consts, sorted(bools), constraint):
+    for env in assignments(syms, consts, sorted(set(bools) | set(extra_bools)), constraint):
         n += 1
         got = eval_pred(e, env, atom_name)
         want = spec(env)
